@@ -50,11 +50,13 @@ var stmts = map[string]gen.Stmt{
 	"upd": {Name: "upd", Kind: "update", SQL: "UPDATE t_s1 SET cnt = cnt + 1 WHERE id = ?", Args: []interface{}{int64(1)}},
 	"del": {Name: "del", Kind: "delete", SQL: "DELETE FROM t_s1 WHERE id = 2"},
 	"bad": {Name: "bad", Kind: "insert", SQL: "INSERT INTO t_s1 (id, name, cnt) VALUES (1, 'dup', 0)"},
+	// a statement that goes through the driver's query path (a locking read is transactional work like any DML)
+	"sel": {Name: "sel", Kind: "query", SQL: "SELECT cnt FROM t_s1 WHERE id = ? FOR UPDATE", Args: []interface{}{int64(1)}},
 }
 
 func Enumerate(thorough bool, yield func(idx int, c Case)) int {
 	idx := 0
-	programs := [][]string{{"ins"}, {"upd"}, {"del"}, {"bad"}, {"upd", "ins"}, {"ins", "bad"}}
+	programs := [][]string{{"ins"}, {"upd"}, {"del"}, {"bad"}, {"upd", "ins"}, {"ins", "bad"}, {"sel"}, {"sel", "upd"}}
 	for _, ver := range []string{"8.0.28", "8.0.29"} {
 		for _, p := range programs {
 			for _, shape := range []string{"auto", "tx"} {
@@ -177,6 +179,7 @@ func run(e *sys.Env, c Case) *runResult {
 			var tx *sql.Tx
 			var ex interface {
 				ExecContext(ctx context.Context, q string, args ...interface{}) (sql.Result, error)
+				QueryContext(ctx context.Context, q string, args ...interface{}) (*sql.Rows, error)
 			} = e.XA
 			if c.Shape == "tx" { // (auto and auto2 use autocommit statements)
 				t, err := e.XA.BeginTx(ctx, nil)
@@ -189,18 +192,32 @@ func run(e *sys.Env, c Case) *runResult {
 			for _, n := range c.Stmts {
 				st := stmts[n]
 				var err error
+				queryPanicked := false
 				func() {
 					defer func() {
 						if r := recover(); r != nil {
 							err = fmt.Errorf("panic: %v", r)
+							queryPanicked = st.Kind == "query"
 						}
 					}()
+					if st.Kind == "query" {
+						var rows *sql.Rows
+						if rows, err = ex.QueryContext(ctx, st.SQL, st.Args...); err == nil {
+							defer rows.Close()
+							for rows.Next() {
+							}
+							err = rows.Err()
+						}
+						return
+					}
 					_, err = ex.ExecContext(ctx, st.SQL, st.Args...)
 				}()
 				if err != nil {
 					rr.stepErrs = append(rr.stepErrs, err.Error())
 					rr.bizErr = err.Error()
-					if tx != nil {
+					// (a panic that escapes the driver's query path leaves database/sql's transaction read-locked for good:
+					// calling Rollback on it would block forever, so the program just gives up)
+					if tx != nil && !queryPanicked {
 						tx.Rollback()
 					}
 					return err
@@ -281,6 +298,31 @@ func check(e *sys.Env, c Case, rr *runResult) (clause, detail string) {
 	}
 	if c.Shape == "auto2" && rr.secondErr != "" {
 		return "second-transaction-on-connection-fails", d("the first global transaction finished (phase two %v); a second one on the same handle failed: %s", rr.phase2, rr.secondErr)
+	}
+	// 0. every business statement of the program that reached the database ran on a connection inside an ACTIVE branch
+	// (between its XA START and XA END): work done outside a branch is invisible to phase two
+	{
+		active := map[int]string{}
+		mine := map[string]bool{}
+		for _, n := range c.Stmts {
+			mine[stmts[n].SQL] = true
+		}
+		for _, j := range rr.journal {
+			if m := reXA.FindStringSubmatch(j.SQL); m != nil {
+				if j.Err == "" {
+					switch strings.ToUpper(m[1]) {
+					case "START":
+						active[j.Conn] = m[2]
+					case "END", "ROLLBACK", "COMMIT", "PREPARE":
+						delete(active, j.Conn)
+					}
+				}
+				continue
+			}
+			if (j.Kind == "exec" || j.Kind == "query") && mine[j.SQL] && active[j.Conn] == "" {
+				return "statement-outside-branch", d("%q ran on connection %d, which is in no active XA branch at that point", j.SQL, j.Conn)
+			}
+		}
 	}
 	// 1. the XA state machine of the database never had to reject a command the fault plan did not cause
 	for _, j := range rr.journal {
